@@ -71,6 +71,22 @@ def build(tree):
         obj[i] = o
         return o
     mk(1)
+    if tree.get("pre"):
+        # the tree is first given the opposite requirements, listed and rendered, then
+        # edited into its final shape: numbering must follow the graph as it is now
+        for i in range(2, n + 1):
+            for r in tree["req"][i - 1]:
+                obj[r].requires(obj[i])
+        sink = io.StringIO()
+        with contextlib.redirect_stdout(sink):
+            try:
+                obj[1].list()
+                obj[1].dot_format()
+            except BaseException:                       # pylint: disable=W0703
+                pass
+        for i in range(2, n + 1):
+            for r in tree["req"][i - 1]:
+                obj[r].requires(obj[i], remove=True)
     for i in range(2, n + 1):
         for r in tree["req"][i - 1]:
             obj[i].requires(obj[r])
